@@ -198,6 +198,8 @@ def part_C(ck, rng, n):
         nl = rng.choice([2, 2, 3])
         dim = rng.choice([1, 2])
         nn = sorted([rng.choice([2, 3, 4]) for _ in range(nl)], reverse=True)
+        if rng.random() < 0.2:
+            nn[-1] = 1                  # a coarse level with a single collocation node
         lam = tuple(rfrac(rng, -3, 1) for _ in range(dim)); c = tuple(rfrac(rng, -2, 2) for _ in range(dim))
         lamE = tuple(rfrac(rng, -2, 1) for _ in range(dim)); zero = tuple(F(0) for _ in range(dim))
         levels = []
@@ -334,6 +336,10 @@ def part_E(ck, rng, n):
     for i in range(n):
         nl = rng.choice([2, 3, 3, 4] if i % 7 == 0 else [2, 3, 3])
         nn = sorted([rng.choice([2, 3, 4]) for _ in range(nl)], reverse=True)
+        if i % 6 == 4:
+            nn[-1] = 1                  # a coarse level with a single collocation node
+            if nl > 2 and rng.random() < 0.5:
+                nn[-2] = 1
         nsw = [rng.choice([1, 2, 3]) for _ in range(nl - 1)] + [1]
         c = rfrac(rng, -2, 2)
         levels_cfg, lams = [], []
